@@ -3911,6 +3911,10 @@ impl Zeroconf {
                 // Remove cache entries.
                 self.cache.remove_service_type(&ty_domain);
 
+                // Forget which instances of this type were reported resolved.
+                let suffix = format!(".{ty}");
+                self.resolved.retain(|instance| !instance.ends_with(&suffix));
+
                 // Notify the client.
                 match sender.send(ServiceEvent::SearchStopped(ty_domain)) {
                     Ok(()) => trace!("Sent SearchStopped to the listener"),
